@@ -498,12 +498,19 @@ def run_send(chk, rig, cases):
             if endless:
                 chk.violation('C20:mtu-too-small-nonterminating', '_process_tx_queue keeps sending frames for xfer=%d, %d octets, mtu_default=%s'
                               % (xfer, len(data), m), rep)
-            elif esc is not None or [f.hex() for f in sent] != ans.get('sent'):
+            elif esc != 'cpu' and (esc is not None or [f.hex() for f in sent] != ans.get('sent')):
                 chk.corr_break('_process_tx_queue differs: escaped %s, %d frames sent (model %d)' % (esc, len(sent), len(ans.get('sent', []))), rep)
-            if small and (sent or esc is not None) and not endless:
+            if esc == 'cpu':
+                chk.count('tx-queue:cpu-bound-hit-inconclusive')
+            elif esc is not None and not endless:
+                chk.violation('C20:send-path-raises', 'send_bundle_data / the idle callback ended with %s for xfer=%d, %d octets, mtu_default=%s'
+                              % (esc, xfer, len(data), m), rep)
+            if small and sent and not endless:
                 chk.violation('C20:length-field-wraps' if len(data) >= 2 ** 20 and m != 0 and (m is None or m > 18) else 'C20:mtu-too-small-not-failed',
-                              'mtu_default=%s: nothing may be sent but _process_tx_queue sent %d frames / escaped %s'
-                              % (m, len(sent), esc), rep)
+                              'mtu_default=%s: nothing may be sent but _process_tx_queue sent %d frames' % (m, len(sent)), rep)
+            if not small and not sent and esc is None and not endless and frames:
+                chk.violation('C20:queued-transfer-never-sent', 'send_bundle_data returned but no frame went out for xfer=%d, %d octets, mtu_default=%s '
+                              '(nothing pending in the loop)' % (xfer, len(data), m), rep)
         if frames is None:
             continue
         for sig, what in send_monitors(xfer, data, m, frames):
@@ -531,6 +538,8 @@ def run_send_ids(chk, rig):
         chk.count('send:series')
         if esc is not None:
             chk.violation('C20:send-path-raises', 'send_bundle_data / the idle callback raised %s' % esc, rep)
+        elif any(len(x) == 0 for x in nums):
+            chk.violation('C20:queued-transfer-never-sent', 'send_bundle_data returned ids %s but no segment frame went out for some of them' % ids, rep)
         elif len(set(ids)) != len(ids) or any(len(x) != 1 for x in nums) or [str(x[0]) for x in nums] != ids:
             chk.violation('C20:tx-id-reused', 'send_bundle_data returned ids %s; transfer numbers in the frames: %s — segments of different '
                           'bundles would be reassembled into one transfer' % (ids, nums), rep)
